@@ -7,7 +7,7 @@
    (BIP112) -- without them the statement is false (InterpRefuted.v).
    Covered: every fragment except sortedmulti / sortedmulti_a, which the decoder never produces
    and which the interpreter would evaluate with the keys unsorted (see [icover]). *)
-From Verif Require Import Exec Ser Ast Types TypeCheck ExecLemmas TheoremA InterpModel InterpRefine.
+From Verif Require Import Exec Ser Ast Types TypeCheck ExecLemmas ExecTraceLemmas TheoremA InterpModel InterpRefine.
 From Coq Require Import Lia.
 Local Open Scope N_scope.
 
@@ -70,6 +70,15 @@ Section InterpSound.
   (* abstract result vs concrete value *)
   Definition outrel (u : bool) (x : elem) (v : bytes) : Prop :=
     (x = ESat /\ goodval u v) \/ (x = EDis /\ v = []).
+
+  Definition check_of (c : constr) : check :=
+    match c with
+    | CsPk k s => KSig k s
+    | CsPkh _ k s => KSig k s
+    | CsHash kd h p => KPre kd h p
+    | CsOlder n => KRel n
+    | CsAfter n => KAbs n
+    end.
 
   (* what the input class promises about the consumed prefix *)
   Definition shapeI (i : input) (w : astack) : Prop :=
@@ -814,6 +823,11 @@ Section InterpSound.
   Lemma multisig_match_nil_keys s srest : multisig_match e [] (s :: srest) = false.
   Proof. reflexivity. Qed.
 
+  Lemma multisig_pairs_cons kx krest s srest :
+    multisig_pairs e (kx :: krest) (s :: srest) =
+    if e_sigok e kx s then (kx, s) :: multisig_pairs e krest srest else multisig_pairs e krest (s :: srest).
+  Proof. destruct krest as [|k2 kr2]; reflexivity. Qed.
+
   Lemma multisig_empty_first keys srest : multisig_match e keys ([] :: srest) = false.
   Proof.
     induction keys as [|kx krest IH]; [reflexivity|]. rewrite multisig_match_cons.
@@ -824,7 +838,8 @@ Section InterpSound.
   Lemma s_multi_loop k l : forall ns st st' cs, multi_loop e ke k l ns st = XOk st' cs -> ns <= k ->
     exists sigs r, st = map EPush sigs ++ EDis :: r /\ st' = ESat :: r /\
       N.of_nat (length sigs) = k - ns /\ (length sigs <= length l)%nat /\
-      multisig_match e (map (kb ke) l) sigs = true.
+      multisig_match e (map (kb ke) l) sigs = true /\
+      map check_of cs = map (fun p => KSig (fst p) (snd p)) (multisig_pairs e (map (kb ke) l) sigs).
   Proof.
     induction l as [|key l' IH]; intros ns st st' cs H Hns; cbn [multi_loop] in H.
     - destruct (N.eqb_spec ns k) as [E|E]; [|discriminate]. destruct st as [|[| |b] r]; try discriminate.
@@ -833,18 +848,22 @@ Section InterpSound.
       + destruct st as [|[| |b] r]; try discriminate. inversion H; subst. exists [], r. repeat split; cbn; lia.
       + unfold evaluate_multi in H. destruct st as [|[| |s] r0]; try discriminate.
         destruct (e_sigok e (kb ke key) s) eqn:Es.
-        * apply xbind_ok in H. destruct H as [s1 [c1 [c2 [H1 [Hf _]]]]]. inversion H1; subst.
-          destruct (IH (ns + 1) s1 st' c2 Hf ltac:(lia)) as [sigs [r [-> [-> [Hlen [Hle Hm]]]]]].
+        * apply xbind_ok in H. destruct H as [s1 [c1 [c2 [H1 [Hf Ecs]]]]]. inversion H1; subst.
+          destruct (IH (ns + 1) s1 st' c2 Hf ltac:(lia)) as [sigs [r [-> [-> [Hlen [Hle [Hm Hpairs]]]]]]].
           exists (s :: sigs), r. split; [reflexivity|]. split; [reflexivity|]. cbn [length map].
-          split; [lia|]. split; [lia|]. rewrite multisig_match_cons, Es.
-          destruct (Nat.ltb_spec (length (kb ke key :: map (kb ke) l')) (length (s :: sigs))) as [Hlt|_]; [|exact Hm].
-          cbn [length] in Hlt. rewrite map_length in Hlt. lia.
-        * destruct (IH ns (EPush s :: r0) st' cs H Hns) as [sigs [r [Hst [-> [Hlen [Hle Hm]]]]]].
+          split; [lia|]. split; [lia|]. split.
+          -- rewrite multisig_match_cons, Es.
+             destruct (Nat.ltb_spec (length (kb ke key :: map (kb ke) l')) (length (s :: sigs))) as [Hlt|_]; [|exact Hm].
+             cbn [length] in Hlt. rewrite map_length in Hlt. lia.
+          -- rewrite multisig_pairs_cons, Es. cbn [map app check_of fst snd]. rewrite Hpairs. reflexivity.
+        * destruct (IH ns (EPush s :: r0) st' cs H Hns) as [sigs [r [Hst [-> [Hlen [Hle [Hm Hpairs]]]]]]].
           destruct sigs as [|s0 sigs']; [cbn in Hlen; lia|]. cbn [map app] in Hst. inversion Hst; subst s0 r0.
           exists (s :: sigs'), r. split; [reflexivity|]. split; [reflexivity|]. split; [exact Hlen|]. cbn [length] in *.
-          split; [lia|]. cbn [map]. rewrite multisig_match_cons, Es.
-          destruct (Nat.ltb_spec (length (kb ke key :: map (kb ke) l')) (length (s :: sigs'))) as [Hlt|_]; [|exact Hm].
-          cbn [length] in Hlt. rewrite map_length in Hlt. lia.
+          split; [lia|]. cbn [map]. split.
+          -- rewrite multisig_match_cons, Es.
+             destruct (Nat.ltb_spec (length (kb ke key :: map (kb ke) l')) (length (s :: sigs'))) as [Hlt|_]; [|exact Hm].
+             cbn [length] in Hlt. rewrite map_length in Hlt. lia.
+          -- rewrite multisig_pairs_cons, Es. exact Hpairs.
   Qed.
 
   Lemma take_n_app {A} (a b : list A) : take_n (length a) (a ++ b) = Some (a, b).
@@ -930,7 +949,7 @@ Section InterpSound.
         - destruct a; try congruence; discriminate.
         - cbn [multi_loop]. destruct (N.eqb_spec 0 k) as [E|_]; [lia|].
           destruct a; try congruence; exact H. }
-      destruct (s_multi_loop k (rev ks) 0 (a :: st0) st' cs Hloop ltac:(lia)) as [sigs [r [Hst [-> [Hlen [_ Hm]]]]]].
+      destruct (s_multi_loop k (rev ks) 0 (a :: st0) st' cs Hloop ltac:(lia)) as [sigs [r [Hst [-> [Hlen [_ [Hm _]]]]]]].
       exists (map EPush sigs ++ [EDis]), r. split; [rewrite <- app_assoc; exact Hst|]. split.
       { cbn [shapeI]. destruct sigs; discriminate. }
       exists ESat. split; [reflexivity|]. intros rest al. exists [1]. split; [|apply outrel_sat1].
@@ -1193,6 +1212,906 @@ Section InterpSound.
       destruct b as [|a [|a' b']]; cbn; try reflexivity. destruct (N.eqb_spec a 1); subst; reflexivity. }
     rewrite Hst, app_nil_r in Hconc. rewrite app_nil_r, Hconc in Hr.
     unfold accepts. rewrite Hr. cbn. exact Htr.
+  Qed.
+
+
+  (* ================================================================ traces *)
+  (* the checks of the executed path are exactly the reported constraints, in order *)
+  Definition trok (t : list event) (cs : list constr) : Prop :=
+    hstart t = false /\ hend t = false /\ checks t = map check_of cs.
+
+  Notation trc m st := (tr_script e (enc ke m) st).
+
+  Lemma trok_nil : trok [] []. Proof. repeat split. Qed.
+  Lemma hstart_app t1 t2 : hstart t1 = false -> hstart t2 = false -> hstart (t1 ++ t2) = false.
+  Proof. destruct t1 as [|x r]; cbn; auto. Qed.
+  Lemma hend_app' t1 t2 : hend t1 = false -> hend t2 = false -> hend (t1 ++ t2) = false.
+  Proof. intros H1 H2. destruct t2 as [|y z]; [rewrite app_nil_r; exact H1 | rewrite hend_app by discriminate; exact H2]. Qed.
+  Lemma trok_app t1 t2 c1 c2 : trok t1 c1 -> trok t2 c2 -> trok (t1 ++ t2) (c1 ++ c2).
+  Proof.
+    intros [S1 [E1 K1]] [S2 [E2 K2]]. split; [apply hstart_app; assumption|]. split; [apply hend_app'; assumption|].
+    rewrite checks_app, map_app, K1, K2 by assumption. reflexivity.
+  Qed.
+  Lemma trok_quiet t : (forall ev, In ev t -> match ev with TEq _ | TNeq | TDup => True | _ => False end) ->
+    hend t = false -> (forall kd p d r, t <> TDup :: THash kd p d :: r) -> trok t [].
+  Proof.
+    intros Hq He _. split; [destruct t as [|x r]; [reflexivity|]; specialize (Hq x (or_introl eq_refl)); destruct x; try contradiction; reflexivity|].
+    split; [exact He|]. clear He. induction t as [|x r IH]; [reflexivity|].
+    assert (Hr : forall ev, In ev r -> match ev with TEq _ | TNeq | TDup => True | _ => False end) by (intros ev Hin; apply Hq; right; exact Hin).
+    specialize (Hq x (or_introl eq_refl)). destruct x; try contradiction; cbn [checks]; try (apply IH, Hr).
+    destruct r as [|y z]; [reflexivity|]. pose proof (Hr y (or_introl eq_refl)) as Hy. destruct y; try contradiction; apply IH, Hr.
+  Qed.
+
+  Definition sigev (kbs s : bytes) : list event := if nonempty s then [TSig kbs s] else [].
+
+  (* trace side of the posts; every clause is for the split [st = w ++ r] that the state-level post holds for *)
+  Definition tpost (b : base) (m : ms) (w : astack) (cs : list constr) : Prop :=
+    match b with
+    | BB | BV => forall rest al, trok (trc m (mkSt (C w ++ rest) al)) cs
+    | BW => forall c rest al, trok (trc m (mkSt (c :: C w ++ rest) al)) cs
+    | BK => forall rest al kbs s, run m (mkSt (C w ++ rest) al) = Ok (mkSt (kbs :: s :: rest) al) ->
+                                  trok (trc m (mkSt (C w ++ rest) al) ++ sigev kbs s) cs
+    end.
+
+  Definition tsound (m : ms) (b : base) (u : bool) : Prop :=
+    forall st st' cs, Forall okelem st -> ev m st = XOk st' cs ->
+      forall w r, st = w ++ r -> post b m u w r st' -> tpost b m w cs.
+
+  Lemma app_same_tail {A} (a b r : list A) : a ++ r = b ++ r -> a = b.
+  Proof. apply app_inv_tail. Qed.
+
+  (* ---------------------------------------------------------------- leaves *)
+  Lemma t_true : tsound MTrue BB true.
+  Proof. intros st st' cs _ H w r _ _ rest al. cbn in H. inversion H; subst. apply trok_nil. Qed.
+  Lemma t_false : tsound MFalse BB true.
+  Proof. intros st st' cs _ H w r _ _ rest al. cbn in H. inversion H; subst. apply trok_nil. Qed.
+
+  Lemma trok_sig k s : s <> [] -> trok [TSig k s] [CsPk k s].
+  Proof. intros Hs. repeat split. Qed.
+
+  Lemma t_pk_k k : tsound (MPkK k) BK true.
+  Proof.
+    intros st st' cs Hok H w r Hst [x0 [-> _]] rest al kbs s Hrun. cbn [ieval] in H. unfold evaluate_pk in H.
+    cbn [enc tr_script tr_instr exec_instr app] in *.
+    destruct st as [|[| |sg] r0]; cbn in H; try discriminate.
+    - inversion H; subst. apply (app_same_tail [EDis] w) in Hst. subst w.
+      cbn in Hrun. inversion Hrun; subst. apply trok_nil.
+    - destruct (e_sigok e (kb ke k) sg) eqn:Es; cbn in H; [|discriminate]. inversion H; subst.
+      apply (app_same_tail [EPush sg] w) in Hst. subst w. cbn in Hrun. inversion Hrun; subst.
+      inversion Hok as [|? ? Hx _]; subst. cbn in Hx. destruct Hx as [Hne _].
+      unfold sigev. destruct s as [|b0 s']; [congruence|]. cbn [nonempty app]. repeat split.
+  Qed.
+
+
+  Lemma tr_push_int z st : tr_instr e (push_int z) st = [].
+  Proof. unfold push_int. destruct (z =? 0)%Z; [reflexivity|]. destruct (_ || _); reflexivity. Qed.
+
+  Lemma bytes_eqb_true a b : bytes_eqb a b = true -> a = b.
+  Proof. apply bytes_eqb_eq. Qed.
+
+  Lemma t_pkh_gen (m : ms) (h : bytes) :
+    enc ke m = [IOp OP_DUP; IOp OP_HASH160; IPush h; IOp OP_EQUALVERIFY] ->
+    (forall st, ev m st = x_of_ev (evaluate_pkh e kp h st)) ->
+    tsound m BK true.
+  Proof.
+    intros Henc Hev st st' cs Hok H w r Hst [x0 [-> _]] rest al kbs s Hrun. rewrite Hev in H. unfold evaluate_pkh in H.
+    destruct st as [|[| |pk] r0]; cbn in H; try discriminate.
+    destruct (bytes_eqb (e_hash160 e pk) h) eqn:Eh; cbn in H; [|discriminate].
+    destruct (kp pk) eqn:Ekp; cbn in H; [|discriminate].
+    assert (Htr : forall sg, tr_script e (enc ke m) (mkSt (pk :: sg :: rest) al)
+                  = [TDup; THash KHash160 pk (e_hash160 e pk); TEq h]).
+    { intros sg. rewrite Henc. cbn. rewrite bytes_eqb_sym, Eh. reflexivity. }
+    assert (Hex : forall sg, exec e (enc ke m) (mkSt (pk :: sg :: rest) al) = Ok (mkSt (pk :: sg :: rest) al)).
+    { intros sg. rewrite Henc. cbn. rewrite bytes_eqb_sym, Eh. reflexivity. }
+    destruct r0 as [|[| |sg] r']; cbn in H; try discriminate.
+    - inversion H; subst. apply (app_same_tail [EPush pk; EDis] w) in Hst. subst w.
+      cbn [C map conc app] in *. rewrite Hex in Hrun. inversion Hrun; subst. rewrite Htr. unfold sigev. cbn [nonempty app].
+      split; [reflexivity|]. split; [reflexivity|]. cbn [checks is_h160 andb]. rewrite Eh. reflexivity.
+    - destruct (e_sigok e pk sg) eqn:Es; cbn in H; [|discriminate]. inversion H; subst.
+      apply (app_same_tail [EPush pk; EPush sg] w) in Hst. subst w.
+      cbn [C map conc app] in *. rewrite Hex in Hrun. inversion Hrun; subst. rewrite Htr.
+      inversion Hok as [|? ? _ Hok']; subst. inversion Hok' as [|? ? Hx _]; subst. cbn in Hx. destruct Hx as [Hne _].
+      unfold sigev. destruct s as [|b0 s']; [congruence|]. cbn [nonempty app].
+      split; [reflexivity|]. split; [reflexivity|]. cbn [checks is_h160 andb]. rewrite Eh. reflexivity.
+  Qed.
+
+  Lemma t_after t : iwf (MAfter t) -> tsound (MAfter t) BB false.
+  Proof.
+    intros Hwf st st' cs _ H w r Hst [x0 [-> _]] rest al. cbn in Hwf. cbn [ieval] in H. unfold evaluate_after in H.
+    destruct (Bool.eqb _ _); cbn in H; [|discriminate]. destruct (t <=? e_locktime e); cbn in H; [|discriminate].
+    assert (Er : st = r) by congruence. assert (Ec : cs = [CsAfter t]) by congruence. subst cs.
+    rewrite Er in Hst. apply (app_same_tail [] w) in Hst. subst w.
+    cbn [enc C map app]. rewrite tr_script_cons, tr_push_int, exec_push_int'. cbn [app stk alt tr_script tr_instr op_events].
+    rewrite Hnum5 by lia. rewrite N2Z.id. cbn [app]. destruct (exec_instr e (IOp OP_CLTV) _); repeat split.
+  Qed.
+
+  Lemma t_older t : iwf (MOlder t) -> tsound (MOlder t) BB false.
+  Proof.
+    intros Hwf st st' cs _ H w r Hst [x0 [-> _]] rest al. cbn in Hwf. cbn [ieval] in H.
+    destruct (negb (N.land t SEQ_DISABLE =? 0)) eqn:Ed; [discriminate|]. apply negb_false_iff in Ed.
+    unfold evaluate_older in H. destruct (negb _); cbn in H; [discriminate|]. destruct (_ && _); cbn in H; [|discriminate].
+    assert (Er : st = r) by congruence. assert (Ec : cs = [CsOlder t]) by congruence. subst cs.
+    rewrite Er in Hst. apply (app_same_tail [] w) in Hst. subst w.
+    cbn [enc C map app]. rewrite tr_script_cons, tr_push_int, exec_push_int'. cbn [app stk alt tr_script tr_instr op_events].
+    rewrite Hnum5 by lia. rewrite N2Z.id, Ed. cbn [app]. destruct (exec_instr e (IOp OP_CSV) _); repeat split.
+  Qed.
+
+  Lemma t_hash_gen (m : ms) (kd : ihk) (o : opcode) (h : bytes) :
+    enc ke m = hash_frag o h ->
+    (forall v r al, exec_op e o (mkSt (v :: r) al) = Ok (mkSt (hash_of e kd v :: r) al)) ->
+    (forall v r al, op_events e o (mkSt (v :: r) al) = [THash kd v (hash_of e kd v)]) ->
+    (forall st, ev m st = x_of_ev (evaluate_hash e kd h st)) ->
+    tsound m BB true.
+  Proof.
+    intros Henc Hop Hevt Hev st st' cs Hok H w r Hst [x0 [-> _]] rest al. rewrite Hev in H. unfold evaluate_hash in H.
+    destruct st as [|[| |p] r0]; cbn in H; try discriminate.
+    destruct (blen p =? 32) eqn:El; cbn in H; [|discriminate]. apply N.eqb_eq in El.
+    assert (Htr : tr_script e (enc ke m) (mkSt (p :: rest) al)
+                  = [TEq (num_encode 32); THash kd p (hash_of e kd p)]
+                    ++ (if bytes_eqb (hash_of e kd p) h then [TEq h] else [TNeq])).
+    { rewrite Henc. unfold hash_frag. rewrite tr_script_cons. cbn [tr_instr op_events exec_instr exec_op stk alt app].
+      rewrite El. rewrite tr_script_cons, tr_push_int, exec_push_int'. cbn [app stk alt].
+      rewrite tr_script_cons. cbn [tr_instr op_events exec_instr exec_op stk alt]. rewrite bytes_eqb_refl. cbn [app].
+      rewrite tr_script_cons. cbn [tr_instr exec_instr]. rewrite Hevt, Hop. cbn [app].
+      cbn [tr_script tr_instr op_events exec_instr exec_op stk alt app]. rewrite (bytes_eqb_sym h).
+      destruct (bytes_eqb (hash_of e kd p) h); reflexivity. }
+    destruct (bytes_eqb (hash_of e kd p) h) eqn:Eh; cbn in H; inversion H; subst.
+    - apply (app_same_tail [EPush p] w) in Hst. subst w. cbn [C map conc app]. rewrite Htr.
+      split; [reflexivity|]. split; [reflexivity|]. cbn [app checks map check_of]. rewrite Eh.
+      apply bytes_eqb_true in Eh. rewrite Eh. reflexivity.
+    - apply (app_same_tail [EPush p] w) in Hst. subst w. cbn [C map conc app]. rewrite Htr.
+      split; [reflexivity|]. split; reflexivity.
+  Qed.
+
+  (* ---------------------------------------------------------------- trace algebra *)
+  Lemma tr_quiet_tail s o st : (forall st', op_events e o st' = []) ->
+    tr_script e (s ++ [IOp o]) st = tr_script e s st.
+  Proof.
+    intros Hq. rewrite tr_script_app. destruct (exec e s st) as [st1|]; [|apply app_nil_r].
+    cbn [tr_script tr_instr]. rewrite Hq. destruct (exec_instr e (IOp o) st1); cbn; rewrite app_nil_r; reflexivity.
+  Qed.
+
+  Lemma trok_dup t cs : trok t cs -> trok (TDup :: t) cs.
+  Proof.
+    intros [S1 [E1 K1]]. split; [reflexivity|]. split.
+    - destruct t as [|y z]; [reflexivity | exact E1].
+    - cbn [checks]. destruct t as [|y z]; [exact K1|]. destruct y; try exact K1. discriminate.
+  Qed.
+  Lemma trok_snoc_eq t cs v : trok t cs -> trok (t ++ [TEq v]) cs.
+  Proof. intros H. rewrite <- (app_nil_r cs). apply trok_app; [exact H | repeat split]. Qed.
+  Lemma trok_snoc_neq t cs : trok t cs -> trok (t ++ [TNeq]) cs.
+  Proof. intros H. rewrite <- (app_nil_r cs). apply trok_app; [exact H | repeat split]. Qed.
+
+  (* the fused *VERIFY opcodes leave the same events as opcode + VERIFY when the verify passes *)
+  Lemma tr_push_verify s : forall st st', exec e (push_verify s) st = Ok st' ->
+    tr_script e (push_verify s) st = tr_script e s st.
+  Proof.
+    induction s as [|i r IH]; intros st st' H.
+    - cbn [push_verify tr_script tr_instr op_events app]. destruct (exec_instr e (IOp OP_VERIFY) st); reflexivity.
+    - destruct r as [|j r'].
+      + destruct i as [b|n|o|neg t el]; cbn [push_verify] in *;
+          try (cbn [tr_script tr_instr app]; destruct (exec_instr e _ st) as [s1|]; [|reflexivity];
+               cbn [tr_script tr_instr op_events app]; destruct (exec_instr e (IOp OP_VERIFY) s1); reflexivity).
+        destruct (verify_form o) as [o'|] eqn:Ev.
+        * cbn [tr_script tr_instr]. cbn [exec exec_instr] in H.
+          assert (Hevs : op_events e o' st = op_events e o st).
+          { destruct o; cbn [verify_form] in Ev; inversion Ev; subst; try reflexivity.
+            destruct st as [s a]. cbn [exec_op op_events stk alt bind] in *.
+            destruct s as [|x [|y z]]; try discriminate H; try reflexivity.
+            destruct (bytes_eqb x y); [reflexivity | discriminate H]. }
+          rewrite Hevs. destruct (exec_instr e (IOp o') st); destruct (exec_instr e (IOp o) st); reflexivity.
+        * cbn [tr_script tr_instr app]. destruct (exec_instr e (IOp o) st) as [s1|]; [|reflexivity].
+          cbn [tr_script tr_instr op_events app]. destruct (exec_instr e (IOp OP_VERIFY) s1); reflexivity.
+      + assert (Hpv : push_verify (i :: j :: r') = i :: push_verify (j :: r')) by (destruct i; reflexivity).
+        rewrite Hpv in *. rewrite !tr_script_cons. rewrite exec_cons in H.
+        destruct (exec_instr e i st) as [s1|]; [|reflexivity]. cbn [bind] in H. rewrite (IH s1 st' H). reflexivity.
+  Qed.
+
+
+  (* ---------------------------------------------------------------- wrappers *)
+  Lemma same_split (st w r w' r' : astack) : st = w ++ r -> st = w' ++ r' -> r' = r -> w' = w.
+  Proof. intros -> H ->. symmetry. exact (app_same_tail _ _ _ H). Qed.
+
+  Lemma t_alt x u i : sound x BB u i -> tsound x BB u -> tsound (MAlt x) BW u.
+  Proof.
+    intros Hs Ht st st' cs Hok H w r Hst [x0 [-> _]] c rest al. cbn [ieval] in H.
+    destruct (Hs st _ cs Hok H) as [w' [r' [Hst' [_ Hp']]]]. pose proof Hp' as [x1 [E _]]. inversion E; subst x1 r'.
+    rewrite (same_split _ _ _ _ _ Hst Hst' eq_refl) in *.
+    cbn [enc]. rewrite tr_script_app. cbn [tr_script tr_instr op_events exec exec_instr exec_op stk alt bind app].
+    rewrite tr_quiet_tail by reflexivity. apply (Ht st _ cs Hok H w r Hst Hp').
+  Qed.
+
+  Lemma t_swap x u i : (i = IOne \/ i = IOneNonZero) -> sound x BB u i -> tsound x BB u -> tsound (MSwap x) BW u.
+  Proof.
+    intros Hi Hs Ht st st' cs Hok H w r Hst [x0 [-> _]] c rest al. cbn [ieval] in H.
+    destruct (Hs st _ cs Hok H) as [w' [r' [Hst' [Hsh Hp']]]]. pose proof Hp' as [x1 [E _]]. inversion E; subst x1 r'.
+    rewrite (same_split _ _ _ _ _ Hst Hst' eq_refl) in *.
+    assert (Hl : length w = 1%nat) by (destruct Hi as [-> | ->]; exact Hsh).
+    destruct w as [|a [|b w'']]; try discriminate.
+    cbn [enc app C map]. rewrite tr_script_cons. cbn [tr_instr op_events exec_instr exec_op stk alt app].
+    apply (Ht _ _ cs Hok H [a] r Hst Hp' (c :: rest) al).
+  Qed.
+
+  Lemma t_check x u i : sound x BK u i -> tsound x BK u -> tsound (MCheck x) BB true.
+  Proof.
+    intros Hs Ht st st' cs Hok H w r Hst [x0 [-> _]] rest al. cbn [ieval] in H.
+    destruct (Hs st _ cs Hok H) as [w' [r' [Hst' [_ Hp']]]]. pose proof Hp' as [x1 [E Hpk]]. inversion E; subst x1 r'.
+    rewrite (same_split _ _ _ _ _ Hst Hst' eq_refl) in *.
+    destruct (Hpk rest al) as [kbs [s [Hr _]]].
+    cbn [enc]. rewrite tr_script_app, Hr. cbn [tr_script tr_instr op_events stk].
+    pose proof (Ht st _ cs Hok H w r Hst Hp' rest al kbs s Hr) as Hk. unfold sigev in Hk.
+    destruct (exec_instr e (IOp OP_CHECKSIG) _); rewrite app_nil_r; exact Hk.
+  Qed.
+
+  Lemma t_dupif x u : sound x BV u IZero -> tsound x BV u -> tsound (MDupIf x) BB false.
+  Proof.
+    intros Hs Ht st st' cs Hok H w r Hst [x0 [-> _]] rest al. cbn [ieval] in H. apply xpop_ok in H.
+    destruct H as [[r0 [-> H]]|[r0 [-> H]]].
+    - apply xbind_ok in H. destruct H as [s1 [c1 [c2 [Hx [Hf ->]]]]].
+      assert (Es : s1 = r /\ c2 = [] /\ x0 = ESat) by (inversion Hf; auto). destruct Es as [-> [-> ->]]. rewrite app_nil_r.
+      inversion Hok as [|? ? _ Hok0]; subst.
+      destruct (Hs r0 r c1 Hok0 Hx) as [w' [r' [Hr0 [Hsh Hp']]]]. cbn in Hsh. subst w'. cbn [app] in Hr0. subst r0.
+      pose proof Hp' as [E _]. subst r'. apply (app_same_tail [ESat] w) in Hst. subst w.
+      cbn [enc app C map conc]. rewrite tr_script_cons. cbn [tr_instr op_events exec_instr exec_op stk alt].
+      rewrite tr_script_cons, tr_if. cbn [stk alt]. rewrite if_cond_one'. cbn [xorb app].
+      match goal with |- trok (TDup :: ?t ++ ?u) _ => replace u with (@nil event) by (destruct (exec_instr e _ _); reflexivity) end.
+      rewrite app_nil_r. apply trok_dup. exact (Ht r r c1 Hok0 Hx [] r eq_refl Hp' ([1] :: rest) al).
+    - inversion H; subst. apply (app_same_tail [EDis] w) in Hst. subst w.
+      cbn [enc app C map conc]. rewrite tr_script_cons. cbn [tr_instr op_events exec_instr exec_op stk alt].
+      rewrite tr_script_cons, tr_if. cbn [stk alt]. rewrite if_cond_empty'. cbn [xorb app].
+      match goal with |- trok (TDup :: ?u) _ => replace u with (@nil event) by (destruct (exec_instr e _ _); reflexivity) end.
+      repeat split.
+  Qed.
+
+  Lemma t_verify x u i : sound x BB u i -> tsound x BB u -> tsound (MVerify x) BV false.
+  Proof.
+    intros Hs Ht st st' cs Hok H w r Hst [-> Hpv] rest al. cbn [ieval] in H. apply xbind_ok in H.
+    destruct H as [s1 [c1 [c2 [Hx [Hf ->]]]]].
+    destruct (Hs st s1 c1 Hok Hx) as [w' [r' [Hst' [_ Hp']]]]. pose proof Hp' as [x1 [-> _]].
+    destruct x1; try discriminate.
+    assert (Es : r' = r /\ c2 = []) by (inversion Hf; auto). destruct Es as [-> ->]. rewrite app_nil_r.
+    rewrite (same_split _ _ _ _ _ Hst Hst' eq_refl) in *.
+    pose proof (Hpv rest al) as Hr. cbn [enc] in Hr |- *. rewrite (tr_push_verify (enc ke x) _ _ Hr).
+    apply (Ht _ _ c1 Hok Hx w r Hst Hp').
+  Qed.
+
+  Lemma t_zne x u i : sound x BB u i -> tsound x BB u -> tsound (MZeroNotEqual x) BB true.
+  Proof.
+    intros Hs Ht st st' cs Hok H w r Hst [x0 [-> _]] rest al. cbn [ieval] in H. apply xbind_ok in H.
+    destruct H as [s1 [c1 [c2 [Hx [Hf ->]]]]].
+    destruct (Hs st s1 c1 Hok Hx) as [w' [r' [Hst' [_ Hp']]]]. pose proof Hp' as [x1 [-> _]].
+    assert (Hr : r' = r /\ c2 = []) by (destruct x1; inversion Hf; subst; auto). destruct Hr as [-> ->]. rewrite app_nil_r.
+    rewrite (same_split _ _ _ _ _ Hst Hst' eq_refl) in *.
+    cbn [enc]. rewrite tr_quiet_tail by reflexivity. apply (Ht _ _ c1 Hok Hx w r Hst Hp').
+  Qed.
+
+  Lemma t_nonzero x u i : (i = IOneNonZero \/ i = IAnyNonZero) -> sound x BB u i -> tsound x BB u -> tsound (MNonZero x) BB u.
+  Proof.
+    intros Hi Hs Ht st st' cs Hok H w r Hst [x0 [-> _]] rest al. cbn [ieval] in H.
+    destruct st as [|a r0]; [discriminate|].
+    assert (Hdis : a = EDis \/ a <> EDis) by (destruct a; [right|left|right]; congruence || reflexivity).
+    destruct Hdis as [-> | Hn].
+    - inversion H; subst. apply (app_same_tail [EDis] w) in Hst. subst w.
+      cbn [enc app C map conc]. rewrite tr_script_cons. cbn [tr_instr op_events exec_instr exec_op stk alt app blen length].
+      rewrite tr_script_cons. cbn [tr_instr op_events exec_instr exec_op stk alt app]. cbn.
+      rewrite if_cond_empty'. cbn. repeat split.
+    - assert (H' : ev x (a :: r0) = XOk (x0 :: r) cs) by (destruct a; [exact H | congruence | exact H]).
+      destruct (Hs (a :: r0) _ cs Hok H') as [w' [r' [Hst' [Hsh Hp']]]]. pose proof Hp' as [x1 [E _]]. inversion E; subst x1 r'.
+      rewrite (same_split _ _ _ _ _ Hst Hst' eq_refl) in *.
+      assert (Hw : w <> []) by (destruct Hi as [-> | ->]; cbn in Hsh; [destruct w; [discriminate | congruence] | exact Hsh]).
+      destruct w as [|a' w'']; [congruence|]. cbn [app] in Hst. inversion Hst; subst a' r0.
+      pose proof (Forall_inv Hok) as Ha. pose proof (okelem_top_nz a Ha Hn) as Hlen.
+      cbn [enc app C map]. rewrite tr_script_cons. cbn [tr_instr op_events exec_instr exec_op stk alt app].
+      rewrite tr_script_cons. cbn [tr_instr op_events exec_instr exec_op stk alt app]. rewrite Hnum4 by lia.
+      replace (Z.of_N (blen (conc a)) =? 0)%Z with false by (symmetry; apply Z.eqb_neq; lia). cbn [negb bool_bytes].
+      rewrite tr_script_cons, tr_if. cbn [stk alt]. rewrite if_cond_one'. cbn [xorb].
+      match goal with |- trok (?t ++ ?u) _ => replace u with (@nil event) by (destruct (exec_instr e _ _); reflexivity) end.
+      rewrite app_nil_r. exact (Ht _ _ cs Hok H' (a :: w'') r eq_refl Hp' rest al).
+  Qed.
+
+
+  (* ---------------------------------------------------------------- binary / ternary *)
+  Definition tail_of (b : base) (st' r : astack) : Prop :=
+    match b with BV => st' = r | _ => exists x, st' = x :: r end.
+  Lemma post_tail b m u w r st' : post b m u w r st' -> tail_of b st' r.
+  Proof. destruct b; cbn [post tail_of]; [intros [x [E _]] | intros [x [E _]] | intros [E _] | intros [x [E _]]]; eauto. Qed.
+  Lemma tail_unique b st' r r' : tail_of b st' r -> tail_of b st' r' -> r' = r.
+  Proof. destruct b; cbn; [intros [x ->] [y E] | intros [x ->] [y E] | intros -> E | intros [x ->] [y E]]; congruence. Qed.
+
+  (* a V prefix followed by Y: traces concatenate (B, V: tpost on the same rest; K: with the final sigev) *)
+  Lemma t_and_v x y b ux uy ix iy : b <> BW ->
+    sound x BV ux ix -> tsound x BV ux -> sound y b uy iy -> tsound y b uy -> tsound (MAndV x y) b uy.
+  Proof.
+    intros Hb Hsx Htx Hsy Hty st st' cs Hok H w r Hst Hp. cbn [ieval] in H. apply xbind_ok in H.
+    destruct H as [s1 [c1 [c2 [Hx [Hy ->]]]]].
+    destruct (Hsx st s1 c1 Hok Hx) as [wx [r1 [Hst1 [_ Hpx]]]]. pose proof Hpx as [E Hrx]. subst s1.
+    assert (Hok1 : Forall okelem r1) by (rewrite Hst1 in Hok; exact (Forall_app_r _ _ _ Hok)).
+    destruct (Hsy r1 st' c2 Hok1 Hy) as [wy [r2 [Hst2 [_ Hpy]]]].
+    assert (Er : r2 = r) by (apply (tail_unique b st'); [apply (post_tail _ _ _ _ _ _ Hp) | apply (post_tail _ _ _ _ _ _ Hpy)]).
+    subst r2. assert (Ew : w = wx ++ wy).
+    { apply (app_same_tail _ _ r). rewrite <- app_assoc, <- Hst2, <- Hst1. symmetry. exact Hst. }
+    subst w. pose proof (Htx st r1 c1 Hok Hx wx r1 Hst1 Hpx) as Tx. pose proof (Hty r1 st' c2 Hok1 Hy wy r Hst2 Hpy) as Ty.
+    assert (Htr : forall rest al, trc (MAndV x y) (mkSt (C (wx ++ wy) ++ rest) al)
+                   = trc x (mkSt (C wx ++ (C wy ++ rest)) al) ++ trc y (mkSt (C wy ++ rest) al)).
+    { intros rest al. cbn [enc]. rewrite tr_script_app, C_app, <- app_assoc, Hrx. reflexivity. }
+    destruct b; cbn [tpost] in *; try contradiction.
+    - intros rest al. rewrite Htr. apply trok_app; [apply Tx | apply Ty].
+    - intros rest al kbs s Hrun. rewrite Htr, <- app_assoc. apply trok_app; [apply Tx|]. apply Ty.
+      cbn [enc] in Hrun. rewrite exec_app, C_app, <- app_assoc, Hrx in Hrun. exact Hrun.
+    - intros rest al. rewrite Htr. apply trok_app; [apply Tx | apply Ty].
+  Qed.
+
+  Lemma t_and_b x y ux uy ix iy :
+    sound x BB ux ix -> tsound x BB ux -> sound y BW uy iy -> tsound y BW uy -> tsound (MAndB x y) BB true.
+  Proof.
+    intros Hsx Htx Hsy Hty st st' cs Hok H w r Hst Hp rest al. cbn [ieval] in H. apply xbind_ok in H.
+    destruct H as [s1 [c1 [c2 [Hx [Hf ->]]]]].
+    destruct (Hsx st s1 c1 Hok Hx) as [wx [r1 [Hst1 [_ Hpx]]]]. pose proof Hpx as [x0 [E Hrx]]. subst s1.
+    assert (Hok1 : Forall okelem r1) by (rewrite Hst1 in Hok; exact (Forall_app_r _ _ _ Hok)).
+    assert (Hy : exists s2 cy, ev y r1 = XOk s2 cy /\ c2 = cy /\ exists y0 r2 z0, s2 = y0 :: r2 /\ st' = z0 :: r2).
+    { apply xpop_ok in Hf. destruct Hf as [[r0 [E Hf]]|[r0 [E Hf]]]; inversion E; subst; clear E;
+        apply xbind_ok in Hf; destruct Hf as [s2 [cy [c3 [Hy [Hf ->]]]]]; exists s2, cy; (split; [exact Hy|]);
+        destruct s2 as [|y0 r2]; try discriminate; inversion Hf; subst; (split; [apply app_nil_r|]); eauto. }
+    destruct Hy as [s2 [cy [Hy [-> [y0 [r2 [z0 [-> Est']]]]]]]].
+    destruct (Hsy r1 _ cy Hok1 Hy) as [wy [r2' [Hst2 [_ Hpy]]]]. pose proof Hpy as [y1 [E Hry]]. inversion E; subst y1 r2'.
+    destruct Hp as [z1 [E' _]]. rewrite Est' in E'. inversion E'; subst z1 r2.
+    assert (Ew : w = wx ++ wy).
+    { apply (app_same_tail _ _ r). rewrite <- app_assoc, <- Hst2, <- Hst1. symmetry. exact Hst. }
+    subst w. destruct (Hrx (C wy ++ rest) al) as [vx [Hex _]].
+    cbn [enc]. rewrite tr_script_app, C_app, <- app_assoc, Hex. rewrite tr_quiet_tail by reflexivity.
+    apply trok_app; [apply (Htx st _ c1 Hok Hx wx r1 Hst1 Hpx) | apply (Hty r1 _ cy Hok1 Hy wy r Hst2 Hpy)].
+  Qed.
+
+  Lemma t_or_b x y ux uy ix iy :
+    sound x BB ux ix -> tsound x BB ux -> sound y BW uy iy -> tsound y BW uy -> tsound (MOrB x y) BB true.
+  Proof.
+    intros Hsx Htx Hsy Hty st st' cs Hok H w r Hst Hp rest al. cbn [ieval] in H. apply xbind_ok in H.
+    destruct H as [s1 [c1 [c2 [Hx [Hf ->]]]]].
+    destruct (Hsx st s1 c1 Hok Hx) as [wx [r1 [Hst1 [_ Hpx]]]]. pose proof Hpx as [x0 [E Hrx]]. subst s1.
+    assert (Hok1 : Forall okelem r1) by (rewrite Hst1 in Hok; exact (Forall_app_r _ _ _ Hok)).
+    assert (Hy : exists s2 cy, ev y r1 = XOk s2 cy /\ c2 = cy /\ exists y0 r2 z0, s2 = y0 :: r2 /\ st' = z0 :: r2).
+    { apply xpop_ok in Hf. destruct Hf as [[r0 [E Hf]]|[r0 [E Hf]]]; inversion E; subst; clear E;
+        apply xbind_ok in Hf; destruct Hf as [s2 [cy [c3 [Hy [Hf ->]]]]]; exists s2, cy; (split; [exact Hy|]);
+        destruct s2 as [|y0 r2]; try discriminate; inversion Hf; subst; (split; [apply app_nil_r|]); eauto. }
+    destruct Hy as [s2 [cy [Hy [-> [y0 [r2 [z0 [-> Est']]]]]]]].
+    destruct (Hsy r1 _ cy Hok1 Hy) as [wy [r2' [Hst2 [_ Hpy]]]]. pose proof Hpy as [y1 [E Hry]]. inversion E; subst y1 r2'.
+    destruct Hp as [z1 [E' _]]. rewrite Est' in E'. inversion E'; subst z1 r2.
+    assert (Ew : w = wx ++ wy).
+    { apply (app_same_tail _ _ r). rewrite <- app_assoc, <- Hst2, <- Hst1. symmetry. exact Hst. }
+    subst w. destruct (Hrx (C wy ++ rest) al) as [vx [Hex _]].
+    cbn [enc]. rewrite tr_script_app, C_app, <- app_assoc, Hex. rewrite tr_quiet_tail by reflexivity.
+    apply trok_app; [apply (Htx st _ c1 Hok Hx wx r1 Hst1 Hpx) | apply (Hty r1 _ cy Hok1 Hy wy r Hst2 Hpy)].
+  Qed.
+
+
+  (* X then [pre] NOTIF Z ENDIF; [pre] is IFDUP (or_d, dup = true) or nothing (or_c) *)
+  Lemma t_or_cd (m x z : ms) (pre : script) (dup : bool) (b : base) uz ix iz :
+    enc ke m = enc ke x ++ pre ++ [IIf true (enc ke z) None] ->
+    (forall st, ev m st = xbind (ev x st) (fun s1 => xpop_bool s1 (fun r1 => match b with BV => XOk r1 [] | _ => XOk (ESat :: r1) [] end) (ieval e ke kp z))) ->
+    (forall v rest al, exec e pre (mkSt (v :: rest) al)
+                       = Ok (mkSt ((if dup && truthy v then [v] else []) ++ v :: rest) al) /\ tr_script e pre (mkSt (v :: rest) al) = []) ->
+    (b = BV \/ b = BB) ->
+    sound x BB true ix -> tsound x BB true -> sound z b uz iz -> tsound z b uz -> tsound m b uz.
+  Proof.
+    intros Henc Hev Hpre Hb Hsx Htx Hsz Htz st st' cs Hok H w r Hst Hp. rewrite Hev in H. apply xbind_ok in H.
+    destruct H as [s1 [c1 [c2 [Hx [Hf ->]]]]].
+    destruct (Hsx st s1 c1 Hok Hx) as [wx [r1 [Hst1 [_ Hpx]]]]. pose proof Hpx as [x0 [E Hrx]]. subst s1.
+    assert (Hok1 : Forall okelem r1) by (rewrite Hst1 in Hok; exact (Forall_app_r _ _ _ Hok)).
+    pose proof (Htx st _ c1 Hok Hx wx r1 Hst1 Hpx) as Tx. cbn [tpost] in Tx.
+    apply xpop_ok in Hf. destruct Hf as [[r0 [E Hf]]|[r0 [E Hf]]]; inversion E; subst x0 r0; clear E.
+    - (* X satisfied with [1]: the branch is skipped *)
+      assert (Est : tail_of b st' r1 /\ c2 = []) by (destruct Hb as [-> | ->]; inversion Hf; subst; cbn; eauto).
+      destruct Est as [Et ->]. rewrite app_nil_r.
+      assert (Er : r1 = r) by (apply (tail_unique b st'); [apply (post_tail _ _ _ _ _ _ Hp) | exact Et]). subst r1.
+      rewrite (same_split _ _ _ _ _ Hst Hst1 eq_refl) in *.
+      assert (Htr : forall rest al, tr_script e (enc ke m) (mkSt (C w ++ rest) al) = trc x (mkSt (C w ++ rest) al)).
+      { intros rest al. destruct (Hrx rest al) as [v [Hex Ho]].
+        destruct Ho as [[_ [_ [_ Hu]]]|[Hd _]]; [|discriminate]. rewrite (Hu eq_refl) in Hex.
+        rewrite Henc, tr_script_app, Hex, tr_script_app. destruct (Hpre [1] rest al) as [Hpe Hpt]. rewrite Hpt, Hpe.
+        rewrite truthy_one, andb_true_r.
+        destruct dup; cbn [app]; rewrite tr_script_cons, tr_if; cbn [stk alt]; rewrite if_cond_one'; cbn [xorb app];
+          (destruct (exec_instr e _ _); rewrite !app_nil_r; reflexivity). }
+      destruct Hb as [-> | ->]; cbn [tpost]; intros rest al; rewrite Htr; apply Tx.
+    - (* X dissatisfied: Z runs *)
+      destruct (Hsz r1 st' c2 Hok1 Hf) as [wz [r2 [Hst2 [_ Hpz]]]].
+      assert (Er : r2 = r) by (apply (tail_unique b st'); [apply (post_tail _ _ _ _ _ _ Hp) | apply (post_tail _ _ _ _ _ _ Hpz)]).
+      subst r2. assert (Ew : w = wx ++ wz).
+      { apply (app_same_tail _ _ r). rewrite <- app_assoc, <- Hst2, <- Hst1. symmetry. exact Hst. }
+      subst w. pose proof (Htz r1 st' c2 Hok1 Hf wz r Hst2 Hpz) as Tz.
+      assert (Htr : forall rest al, tr_script e (enc ke m) (mkSt (C (wx ++ wz) ++ rest) al)
+                     = trc x (mkSt (C wx ++ (C wz ++ rest)) al) ++ trc z (mkSt (C wz ++ rest) al)).
+      { intros rest al. destruct (Hrx (C wz ++ rest) al) as [v [Hex Ho]].
+        destruct Ho as [[Hd _]|[_ ->]]; [discriminate|].
+        rewrite Henc, tr_script_app, C_app, <- app_assoc, Hex, tr_script_app.
+        destruct (Hpre [] (C wz ++ rest) al) as [Hpe Hpt]. rewrite Hpt, Hpe. rewrite andb_false_r. cbn [app].
+        rewrite tr_script_cons, tr_if. cbn [stk alt]. rewrite if_cond_empty'. cbn [xorb app].
+        destruct (exec_instr e _ _); rewrite !app_nil_r; reflexivity. }
+      destruct Hb as [-> | ->]; cbn [tpost] in *; intros rest al; rewrite Htr; apply trok_app; [apply Tx | apply Tz | apply Tx | apply Tz].
+  Qed.
+
+  Lemma t_or_c x z uz ix iz :
+    sound x BB true ix -> tsound x BB true -> sound z BV uz iz -> tsound z BV uz -> tsound (MOrC x z) BV uz.
+  Proof.
+    intros. apply (t_or_cd (MOrC x z) x z [] false BV uz ix iz); auto; try (intros v rest al; split; reflexivity).
+  Qed.
+  Lemma t_or_d x z uz ix iz :
+    sound x BB true ix -> tsound x BB true -> sound z BB uz iz -> tsound z BB uz -> tsound (MOrD x z) BB uz.
+  Proof.
+    intros. apply (t_or_cd (MOrD x z) x z [IOp OP_IFDUP] true BB uz ix iz); auto.
+    intros v rest al. split; [|reflexivity]. cbn. destruct (truthy v); reflexivity.
+  Qed.
+
+  (* or_i: the selector picks the branch *)
+  Lemma t_or_i x z b ux uz ix iz : b <> BW ->
+    sound x b ux ix -> tsound x b ux -> sound z b uz iz -> tsound z b uz -> tsound (MOrI x z) b (ux && uz).
+  Proof.
+    intros Hb Hsx Htx Hsz Htz st st' cs Hok H w r Hst Hp. cbn [ieval] in H. apply xpop_ok in H.
+    assert (Htrl : forall w0 rest al, trc (MOrI x z) (mkSt (C (ESat :: w0) ++ rest) al) = trc x (mkSt (C w0 ++ rest) al)).
+    { intros w0 rest al. cbn [enc app C map conc]. rewrite tr_script_cons, tr_if. cbn [stk alt]. rewrite if_cond_one'. cbn [xorb].
+      destruct (exec_instr e _ _); rewrite app_nil_r; reflexivity. }
+    assert (Htrr : forall w0 rest al, trc (MOrI x z) (mkSt (C (EDis :: w0) ++ rest) al) = trc z (mkSt (C w0 ++ rest) al)).
+    { intros w0 rest al. cbn [enc app C map conc]. rewrite tr_script_cons, tr_if. cbn [stk alt]. rewrite if_cond_empty'. cbn [xorb].
+      destruct (exec_instr e _ _); rewrite app_nil_r; reflexivity. }
+    destruct H as [[r0 [E H]]|[r0 [E H]]]; subst st; pose proof (Forall_inv_tail Hok) as Hok0.
+    - destruct (Hsx r0 st' cs Hok0 H) as [w0 [r' [Hst0 [_ Hpx]]]].
+      assert (Er : r' = r) by (apply (tail_unique b st'); [apply (post_tail _ _ _ _ _ _ Hp) | apply (post_tail _ _ _ _ _ _ Hpx)]).
+      subst r'. assert (Ew : w = ESat :: w0).
+      { apply (app_same_tail _ _ r). cbn [app]. rewrite <- Hst0. symmetry. exact Hst. }
+      subst w. pose proof (Htx r0 st' cs Hok0 H w0 r Hst0 Hpx) as Tx.
+      destruct b; cbn [tpost] in *; try contradiction.
+      + intros rest al. rewrite Htrl. apply Tx.
+      + intros rest al kbs s Hrun. rewrite Htrl. apply Tx. rewrite run_or_i_l' in Hrun. exact Hrun.
+      + intros rest al. rewrite Htrl. apply Tx.
+    - destruct (Hsz r0 st' cs Hok0 H) as [w0 [r' [Hst0 [_ Hpz]]]].
+      assert (Er : r' = r) by (apply (tail_unique b st'); [apply (post_tail _ _ _ _ _ _ Hp) | apply (post_tail _ _ _ _ _ _ Hpz)]).
+      subst r'. assert (Ew : w = EDis :: w0).
+      { apply (app_same_tail _ _ r). cbn [app]. rewrite <- Hst0. symmetry. exact Hst. }
+      subst w. pose proof (Htz r0 st' cs Hok0 H w0 r Hst0 Hpz) as Tz.
+      destruct b; cbn [tpost] in *; try contradiction.
+      + intros rest al. rewrite Htrr. apply Tz.
+      + intros rest al kbs s Hrun. rewrite Htrr. apply Tz. rewrite run_or_i_r' in Hrun. exact Hrun.
+      + intros rest al. rewrite Htrr. apply Tz.
+  Qed.
+
+  (* andor: X NOTIF Z ELSE Y ENDIF *)
+  Lemma t_andor a b c bb ub uc ia ib ic : bb <> BW ->
+    sound a BB true ia -> tsound a BB true -> sound b bb ub ib -> tsound b bb ub -> sound c bb uc ic -> tsound c bb uc ->
+    tsound (MAndOr a b c) bb (ub && uc).
+  Proof.
+    intros Hb Hsa Hta Hsb Htb Hsc Htc st st' cs Hok H w r Hst Hp. cbn [ieval] in H. apply xbind_ok in H.
+    destruct H as [s1 [c1 [c2 [Ha [Hf ->]]]]].
+    destruct (Hsa st s1 c1 Hok Ha) as [wa [r1 [Hst1 [_ Hpa]]]]. pose proof Hpa as [x0 [E Hra]]. subst s1.
+    assert (Hok1 : Forall okelem r1) by (rewrite Hst1 in Hok; exact (Forall_app_r _ _ _ Hok)).
+    pose proof (Hta st _ c1 Hok Ha wa r1 Hst1 Hpa) as Ta. cbn [tpost] in Ta.
+    apply xpop_ok in Hf. destruct Hf as [[r0 [E Hf]]|[r0 [E Hf]]]; inversion E; subst x0 r0; clear E.
+    - destruct (Hsb r1 st' c2 Hok1 Hf) as [wb [r2 [Hst2 [_ Hpb]]]].
+      assert (Er : r2 = r) by (apply (tail_unique bb st'); [apply (post_tail _ _ _ _ _ _ Hp) | apply (post_tail _ _ _ _ _ _ Hpb)]).
+      subst r2. assert (Ew : w = wa ++ wb).
+      { apply (app_same_tail _ _ r). rewrite <- app_assoc, <- Hst2, <- Hst1. symmetry. exact Hst. }
+      subst w. pose proof (Htb r1 st' c2 Hok1 Hf wb r Hst2 Hpb) as Tb.
+      assert (Hone : forall rest al, exec e (enc ke a) (mkSt (C wa ++ (C wb ++ rest)) al) = Ok (mkSt ([1] :: C wb ++ rest) al)).
+      { intros rest al. destruct (Hra (C wb ++ rest) al) as [v [Hex Ho]].
+        destruct Ho as [[_ [_ [_ Hu]]]|[Hd _]]; [|discriminate]. rewrite (Hu eq_refl) in Hex. exact Hex. }
+      assert (Htr : forall rest al, trc (MAndOr a b c) (mkSt (C (wa ++ wb) ++ rest) al)
+                     = trc a (mkSt (C wa ++ (C wb ++ rest)) al) ++ trc b (mkSt (C wb ++ rest) al)).
+      { intros rest al. cbn [enc]. rewrite tr_script_app, C_app, <- app_assoc, Hone.
+        rewrite tr_script_cons, tr_if. cbn [stk alt]. rewrite if_cond_one'. cbn [xorb app].
+        destruct (exec_instr e _ _); rewrite !app_nil_r; reflexivity. }
+      destruct bb; cbn [tpost] in *; try contradiction.
+      + intros rest al. rewrite Htr. apply trok_app; [apply Ta | apply Tb].
+      + intros rest al kbs s Hrun. rewrite Htr, <- app_assoc. apply trok_app; [apply Ta|]. apply Tb.
+        cbn [enc] in Hrun. rewrite exec_app, C_app, <- app_assoc, Hone in Hrun. cbn [bind] in Hrun.
+        rewrite exec_cons, exec_if in Hrun. cbn [stk alt] in Hrun. rewrite if_cond_one' in Hrun. cbn [xorb] in Hrun.
+        destruct (exec e (enc ke b) _); exact Hrun.
+      + intros rest al. rewrite Htr. apply trok_app; [apply Ta | apply Tb].
+    - destruct (Hsc r1 st' c2 Hok1 Hf) as [wc [r2 [Hst2 [_ Hpc]]]].
+      assert (Er : r2 = r) by (apply (tail_unique bb st'); [apply (post_tail _ _ _ _ _ _ Hp) | apply (post_tail _ _ _ _ _ _ Hpc)]).
+      subst r2. assert (Ew : w = wa ++ wc).
+      { apply (app_same_tail _ _ r). rewrite <- app_assoc, <- Hst2, <- Hst1. symmetry. exact Hst. }
+      subst w. pose proof (Htc r1 st' c2 Hok1 Hf wc r Hst2 Hpc) as Tc.
+      assert (Hzero : forall rest al, exec e (enc ke a) (mkSt (C wa ++ (C wc ++ rest)) al) = Ok (mkSt ([] :: C wc ++ rest) al)).
+      { intros rest al. destruct (Hra (C wc ++ rest) al) as [v [Hex Ho]].
+        destruct Ho as [[Hd _]|[_ ->]]; [discriminate|]. exact Hex. }
+      assert (Htr : forall rest al, trc (MAndOr a b c) (mkSt (C (wa ++ wc) ++ rest) al)
+                     = trc a (mkSt (C wa ++ (C wc ++ rest)) al) ++ trc c (mkSt (C wc ++ rest) al)).
+      { intros rest al. cbn [enc]. rewrite tr_script_app, C_app, <- app_assoc, Hzero.
+        rewrite tr_script_cons, tr_if. cbn [stk alt]. rewrite if_cond_empty'. cbn [xorb app].
+        destruct (exec_instr e _ _); rewrite !app_nil_r; reflexivity. }
+      destruct bb; cbn [tpost] in *; try contradiction.
+      + intros rest al. rewrite Htr. apply trok_app; [apply Ta | apply Tc].
+      + intros rest al kbs s Hrun. rewrite Htr, <- app_assoc. apply trok_app; [apply Ta|]. apply Tc.
+        cbn [enc] in Hrun. rewrite exec_app, C_app, <- app_assoc, Hzero in Hrun. cbn [bind] in Hrun.
+        rewrite exec_cons, exec_if in Hrun. cbn [stk alt] in Hrun. rewrite if_cond_empty' in Hrun. cbn [xorb] in Hrun.
+        destruct (exec e (enc ke c) _); exact Hrun.
+      + intros rest al. rewrite Htr. apply trok_app; [apply Ta | apply Tc].
+  Qed.
+
+
+  (* ---------------------------------------------------------------- thresh *)
+  Lemma add_step a b rest' al' : (0 <= a < 2147483647)%Z -> (0 <= b <= 1)%Z ->
+    (exec_op e OP_ADD (mkSt (num_encode b :: num_encode a :: rest') al') = Ok (mkSt (num_encode (a + b) :: rest') al')) /\
+    (exec_op e OP_ADD (mkSt (num_encode a :: num_encode b :: rest') al') = Ok (mkSt (num_encode (a + b) :: rest') al')).
+  Proof.
+    intros Ha Hb. cbn [exec_op stk alt]. rewrite (Hnum4 a), (Hnum4 b) by lia.
+    split; [reflexivity | rewrite Z.add_comm; reflexivity].
+  Qed.
+
+  Lemma t_tloop k l : Forall (fun x => sound x BW true IAny /\ tsound x BW true) l ->
+    forall ns xp r st' cs, Forall okelem r -> isb xp ->
+      tloop e ke kp k l ns (xp :: r) = XOk st' cs ->
+      (Z.of_N ns + 1 + Z.of_nat (length l) < 2147483648)%Z -> (0 < Z.of_N k < 2147483648)%Z ->
+      forall w r' x, r = w ++ r' -> st' = x :: r' ->
+        forall rest al,
+          trok (tr_script e (enc_tail ke l ++ [push_int (Z.of_N k); IOp OP_EQUAL])
+                         (mkSt (num_encode (Z.of_N (ns + bit xp)) :: C w ++ rest) al)) cs.
+  Proof.
+    induction 1 as [|x l' [Hsx Htx] Hl IH]; intros ns xp r st' cs Hok Hxp H Hbound Hk w r' x2 Hr Hst' rest al.
+    - cbn [tloop] in H. assert (Ecs : cs = []) by (destruct Hxp as [-> | ->]; [destruct (k =? 0); [discriminate|]|]; inversion H; reflexivity).
+      subst cs. cbn [enc_tail app]. rewrite tr_script_cons, tr_push_int, exec_push_int'. cbn [app stk alt tr_script tr_instr op_events].
+      destruct (bytes_eqb _ _); destruct (exec_instr e (IOp OP_EQUAL) _); repeat split.
+    - cbn [tloop] in H.
+      assert (Hcont : exists s1 c1 c2, ev x r = XOk s1 c1 /\ tloop e ke kp k l' (ns + bit xp) s1 = XOk st' c2 /\ cs = c1 ++ c2).
+      { apply xpop_ok in H. destruct H as [[r0 [E H]]|[r0 [E H]]]; inversion E; subst; clear E;
+          apply xbind_ok in H; destruct H as [s1 [c1 [c2 [H1 [H2 H3]]]]]; exists s1, c1, c2; cbn [bit];
+          rewrite ?N.add_0_r; auto. }
+      destruct Hcont as [s1 [c1 [c2 [Hx1 [Hf ->]]]]].
+      destruct (Hsx r s1 c1 Hok Hx1) as [wx [r1 [Hr1 [_ Hpw]]]]. pose proof Hpw as [x1 [E Hpx]]. subst s1.
+      assert (Hok1 : Forall okelem r1) by (rewrite Hr1 in Hok; exact (Forall_app_r _ _ _ Hok)).
+      assert (Hb1 : isb x1) by (destruct (Hpx [] [] []) as [v [_ Ho]]; apply (outrel_unit_val _ _ Ho)).
+      cbn [length] in Hbound.
+      assert (Hbit : (Z.of_N (bit xp) <= 1)%Z) by (destruct xp; cbn; lia).
+      assert (Hsl : Forall (fun x => sound x BW true IAny) l') by (eapply Forall_impl; [|exact Hl]; intros a [Ha _]; exact Ha).
+      destruct (s_tloop k l' Hsl (ns + bit xp) x1 r1 st' c2 Hok1 Hb1 Hf ltac:(lia) Hk) as [w' [r'' [x3 [Hr1' [Est [_ _]]]]]].
+      rewrite Hst' in Est, Hf. inversion Est; subst x3 r''.
+      assert (Ew : w = wx ++ w').
+      { apply (app_same_tail _ _ r'). rewrite <- app_assoc, <- Hr1', <- Hr1. symmetry. exact Hr. }
+      subst w.
+      pose proof (IH (ns + bit xp) x1 r1 (x2 :: r') c2 Hok1 Hb1 Hf ltac:(lia) Hk w' r' x2 Hr1' eq_refl rest al) as Trest.
+      pose proof (Htx r _ c1 Hok Hx1 wx r1 Hr1 Hpw (num_encode (Z.of_N (ns + bit xp))) (C w' ++ rest) al) as Tx.
+      destruct (Hpx (num_encode (Z.of_N (ns + bit xp))) (C w' ++ rest) al) as [v1 [Hr1x Ho1]].
+      destruct (outrel_unit_val _ _ Ho1) as [_ ->].
+      assert (Hb01 : (0 <= Z.of_N (bit x1) <= 1)%Z) by (destruct x1; cbn; lia).
+      destruct (add_step (Z.of_N (ns + bit xp)) (Z.of_N (bit x1)) (C w' ++ rest) al ltac:(lia) Hb01) as [Ha1 Ha2].
+      replace (Z.of_N (ns + bit xp) + Z.of_N (bit x1))%Z with (Z.of_N (ns + bit xp + bit x1)) in Ha1, Ha2 by lia.
+      cbn [enc_tail]. rewrite <- !app_assoc, tr_script_app, C_app, <- app_assoc.
+      destruct Hr1x as [Hr1x|Hr1x]; rewrite Hr1x; cbn [app]; rewrite tr_script_cons; cbn [tr_instr op_events exec_instr];
+        [rewrite Ha1 | rewrite Ha2]; cbn [app]; apply trok_app; assumption.
+  Qed.
+
+  Lemma t_thresh k x0 rest i0 :
+    sound x0 BB true i0 -> tsound x0 BB true ->
+    Forall (fun x => sound x BW true IAny /\ tsound x BW true) rest ->
+    1 <= k <= N.of_nat (S (length rest)) -> (S (length rest) < 1000)%nat ->
+    tsound (MThresh k (x0 :: rest)) BB true.
+  Proof.
+    intros H0 T0 Hr Hk Hn st st' cs Hok H w r Hst [x2 [-> _]] rest0 al. rewrite ev_thresh in H. apply xbind_ok in H.
+    destruct H as [s1 [c1 [c2 [Hx0 [Hf ->]]]]].
+    destruct (H0 st s1 c1 Hok Hx0) as [w0 [r1 [Hst1 [_ Hp0]]]]. pose proof Hp0 as [x1 [E Hrx]]. subst s1.
+    assert (Hok1 : Forall okelem r1) by (rewrite Hst1 in Hok; exact (Forall_app_r _ _ _ Hok)).
+    assert (Hb1 : isb x1) by (destruct (Hrx [] []) as [v [_ Ho]]; apply (outrel_unit_val _ _ Ho)).
+    assert (Hsl : Forall (fun x => sound x BW true IAny) rest) by (eapply Forall_impl; [|exact Hr]; intros a [Ha _]; exact Ha).
+    destruct (s_tloop k rest Hsl 0 x1 r1 _ c2 Hok1 Hb1 Hf ltac:(lia) ltac:(lia)) as [w' [r'' [x3 [Hr1' [Est [_ _]]]]]].
+    inversion Est; subst x3 r''.
+    assert (Ew : w = w0 ++ w').
+    { apply (app_same_tail _ _ r). rewrite <- app_assoc, <- Hr1', <- Hst1. symmetry. exact Hst. }
+    subst w.
+    pose proof (t_tloop k rest Hr 0 x1 r1 _ c2 Hok1 Hb1 Hf ltac:(lia) ltac:(lia) w' r x2 Hr1' eq_refl rest0 al) as Trest.
+    pose proof (T0 st _ c1 Hok Hx0 w0 r1 Hst1 Hp0 (C w' ++ rest0) al) as Tx.
+    destruct (Hrx (C w' ++ rest0) al) as [v1 [Hex Ho1]]. destruct (outrel_unit_val _ _ Ho1) as [_ ->].
+    rewrite enc_thresh, tr_script_app, C_app, <- app_assoc, Hex. rewrite N.add_0_l in Trest.
+    apply trok_app; assumption.
+  Qed.
+
+
+  (* ---------------------------------------------------------------- multi_a *)
+  Lemma t_multi_a_loop k l : e_sv e = SvTapscript ->
+    forall ns st st' cs, Forall okelem st -> multi_a_loop e ke k l ns st = XOk st' cs ->
+      (Z.of_N ns + Z.of_nat (length l) < 2147483648)%Z -> (0 <= Z.of_N k < 2147483648)%Z ->
+      forall w r x, st = w ++ r -> st' = x :: r ->
+        forall rest al,
+          trok (tr_script e (ma_tail l ++ [push_int (Z.of_N k); IOp OP_NUMEQUAL])
+                         (mkSt (num_encode (Z.of_N ns) :: C w ++ rest) al)) cs.
+  Proof.
+    intros Htap. induction l as [|key l' IH]; intros ns st st' cs Hok H Hbound Hk w r x Hst Hst' rest al.
+    - cbn [multi_a_loop] in H. assert (Ecs : cs = []) by (inversion H; reflexivity). subst cs.
+      cbn [ma_tail flat_map app]. rewrite tr_script_cons, tr_push_int, exec_push_int'. cbn [app stk alt tr_script tr_instr op_events].
+      destruct (exec_instr e (IOp OP_NUMEQUAL) _); repeat split.
+    - cbn [multi_a_loop] in H. cbn [length] in Hbound. unfold evaluate_pk in H.
+      destruct st as [|[| |s] r0]; try discriminate.
+      + pose proof (Forall_inv_tail Hok) as Hok0.
+        destruct (s_multi_a_loop k l' Htap ns r0 st' cs Hok0 H ltac:(lia) Hk) as [w' [r'' [x' [Hr0 [Est _]]]]].
+        rewrite Hst' in Est. inversion Est; subst x' r''.
+        assert (Ew : w = EDis :: w') by (apply (app_same_tail _ _ r); cbn [app]; rewrite <- Hr0; symmetry; exact Hst).
+        subst w. cbn [ma_tail flat_map app C map conc]. rewrite tr_script_cons. cbn [tr_instr exec_instr app].
+        rewrite tr_script_cons. cbn [tr_instr op_events exec_instr exec_op stk alt nonempty app].
+        rewrite Htap, Hkey. cbn [negb]. rewrite Hnum4 by lia. exact (IH ns r0 st' cs Hok0 H ltac:(lia) Hk w' r x Hr0 Hst' rest al).
+      + destruct (e_sigok e (kb ke key) s) eqn:Es; [|discriminate].
+        apply xbind_ok in H. destruct H as [s1 [c1 [c2 [H1 [Hf ->]]]]]. inversion H1; subst s1 c1.
+        pose proof (Forall_inv_tail Hok) as Hok0. pose proof (Forall_inv Hok) as Hs. cbn in Hs. destruct Hs as [Hne _].
+        destruct (s_multi_a_loop k l' Htap (ns + 1) r0 st' c2 Hok0 Hf ltac:(lia) Hk) as [w' [r'' [x' [Hr0 [Est _]]]]].
+        rewrite Hst' in Est. inversion Est; subst x' r''.
+        assert (Ew : w = EPush s :: w') by (apply (app_same_tail _ _ r); cbn [app]; rewrite <- Hr0; symmetry; exact Hst).
+        subst w. cbn [ma_tail flat_map app C map conc]. rewrite tr_script_cons. cbn [tr_instr exec_instr app].
+        rewrite tr_script_cons. cbn [tr_instr op_events exec_instr exec_op stk alt app].
+        rewrite Htap, Hkey. cbn [negb]. rewrite Hnum4 by lia.
+        destruct s as [|b0 s']; [congruence|]. rewrite Es. cbn [nonempty].
+        replace (Z.of_N ns + 1)%Z with (Z.of_N (ns + 1)) by lia.
+        change (TSig (kb ke key) (b0 :: s') :: ?t) with ([TSig (kb ke key) (b0 :: s')] ++ t).
+        apply (trok_app [TSig (kb ke key) (b0 :: s')] _ [CsPk (kb ke key) (b0 :: s')] c2); [repeat split|].
+        exact (IH (ns + 1) r0 st' c2 Hok0 Hf ltac:(lia) Hk w' r x Hr0 Hst' rest al).
+  Qed.
+
+  Lemma t_multi_a_gen (m : ms) k ks :
+    enc ke m = (match ks with
+                | [] => []
+                | k0 :: rest => [IPush (kb ke k0); IOp OP_CHECKSIG] ++ ma_tail rest
+                end) ++ [push_int (Z.of_N k); IOp OP_NUMEQUAL] ->
+    (forall st, ev m st = multi_a_loop e ke k ks 0 st) ->
+    e_sv e = SvTapscript -> ks <> [] -> (length ks < 1000)%nat -> k < 2147483648 ->
+    tsound m BB true.
+  Proof.
+    intros Henc Hev Htap Hne Hlen Hk st st' cs Hok H w r Hst [x [-> _]] rest0 al. rewrite Hev in H.
+    destruct ks as [|k0 rest]; [congruence|]. cbn [multi_a_loop] in H. cbn [length] in Hlen. unfold evaluate_pk in H.
+    destruct st as [|[| |s] r0]; try discriminate.
+    - pose proof (Forall_inv_tail Hok) as Hok0.
+      destruct (s_multi_a_loop k rest Htap 0 r0 _ cs Hok0 H ltac:(lia) ltac:(lia)) as [w' [r'' [x' [Hr0 [Est _]]]]].
+      inversion Est; subst x' r''.
+      assert (Ew : w = EDis :: w') by (apply (app_same_tail _ _ r); cbn [app]; rewrite <- Hr0; symmetry; exact Hst).
+      subst w. rewrite Henc, <- app_assoc. cbn [app C map conc]. rewrite tr_script_cons. cbn [tr_instr exec_instr app].
+      rewrite tr_script_cons. cbn [tr_instr op_events exec_instr exec_op stk alt nonempty app].
+      rewrite Hkey. cbn [negb bool_bytes].
+      exact (t_multi_a_loop k rest Htap 0 r0 _ cs Hok0 H ltac:(lia) ltac:(lia) w' r x Hr0 eq_refl rest0 al).
+    - destruct (e_sigok e (kb ke k0) s) eqn:Es; [|discriminate].
+      apply xbind_ok in H. destruct H as [s1 [c1 [c2 [H1 [Hf ->]]]]]. inversion H1; subst s1 c1.
+      pose proof (Forall_inv_tail Hok) as Hok0. pose proof (Forall_inv Hok) as Hs. cbn in Hs. destruct Hs as [Hnes _].
+      destruct (s_multi_a_loop k rest Htap 1 r0 _ c2 Hok0 Hf ltac:(lia) ltac:(lia)) as [w' [r'' [x' [Hr0 [Est _]]]]].
+      inversion Est; subst x' r''.
+      assert (Ew : w = EPush s :: w') by (apply (app_same_tail _ _ r); cbn [app]; rewrite <- Hr0; symmetry; exact Hst).
+      subst w. rewrite Henc, <- app_assoc. cbn [app C map conc]. rewrite tr_script_cons. cbn [tr_instr exec_instr app].
+      rewrite tr_script_cons. cbn [tr_instr op_events exec_instr exec_op stk alt app].
+      rewrite Hkey. cbn [negb]. destruct s as [|b0 s']; [congruence|]. rewrite Es. cbn [nonempty bool_bytes].
+      change (TSig (kb ke k0) (b0 :: s') :: ?t) with ([TSig (kb ke k0) (b0 :: s')] ++ t).
+      apply (trok_app [TSig (kb ke k0) (b0 :: s')] _ [CsPk (kb ke k0) (b0 :: s')] c2); [repeat split|].
+      exact (t_multi_a_loop k rest Htap 1 r0 _ c2 Hok0 Hf ltac:(lia) ltac:(lia) w' r x Hr0 eq_refl rest0 al).
+  Qed.
+
+
+  (* ---------------------------------------------------------------- multi *)
+  Lemma tr_pushes (f : key -> bytes) l s st :
+    tr_script e (map (fun key => IPush (f key)) l ++ s) st = tr_script e s (mkSt (rev (map f l) ++ stk st) (alt st)).
+  Proof.
+    revert st. induction l as [|x r IH]; intros st; cbn [map app rev].
+    - destruct st; reflexivity.
+    - rewrite tr_script_cons. cbn [tr_instr exec_instr app]. rewrite IH. cbn [stk alt]. rewrite <- app_assoc. reflexivity.
+  Qed.
+
+  Lemma tr_multi k ks sigs rest al (okm : bool) : e_sv e <> SvTapscript ->
+    1 <= k <= N.of_nat (length ks) -> (length ks <= 20)%nat -> N.of_nat (length sigs) = k ->
+    multisig_match e (rev (map (kb ke) ks)) sigs = okm ->
+    tr_script e ([push_int (Z.of_N k)] ++ map (fun key => IPush (kb ke key)) ks
+                   ++ [push_int (Z.of_nat (length ks)); IOp OP_CHECKMULTISIG])
+              (mkSt (sigs ++ [] :: rest) al)
+    = if okm then map (fun p => TSig (fst p) (snd p)) (multisig_pairs e (rev (map (kb ke) ks)) sigs) else [].
+  Proof.
+    intros Htap Hk Hn Hlen Hm. cbn [app]. rewrite tr_script_cons, tr_push_int, exec_push_int'. cbn [app stk alt].
+    rewrite tr_pushes. cbn [stk alt]. rewrite tr_script_cons, tr_push_int, exec_push_int'. cbn [app stk alt].
+    cbn [tr_script tr_instr op_events stk].
+    rewrite Hnum4 by lia. rewrite Nat2Z.id.
+    replace (length ks) with (length (rev (map (kb ke) ks))) at 1 by (rewrite rev_length, map_length; reflexivity).
+    rewrite take_n_app. rewrite Hnum4 by lia.
+    replace (Z.to_nat (Z.of_N k)) with (length sigs) by lia. rewrite take_n_app. rewrite Hm.
+    destruct (exec_instr e (IOp OP_CHECKMULTISIG) _); rewrite app_nil_r; reflexivity.
+  Qed.
+
+  Lemma trok_sigs (ps : list (bytes * bytes)) cs :
+    map check_of cs = map (fun p => KSig (fst p) (snd p)) ps ->
+    trok (map (fun p => TSig (fst p) (snd p)) ps) cs.
+  Proof.
+    intros H. split; [destruct ps; reflexivity|]. split.
+    - clear H. induction ps as [|p r IH]; [reflexivity|]. cbn [map hend]. destruct r; [reflexivity | exact IH].
+    - rewrite H. clear H. induction ps as [|p r IH]; [reflexivity|]. cbn [map checks]. rewrite IH. reflexivity.
+  Qed.
+
+  Lemma t_multi_gen (m : ms) k ks :
+    enc ke m = [push_int (Z.of_N k)] ++ map (fun key => IPush (kb ke key)) ks
+                 ++ [push_int (Z.of_nat (length ks)); IOp OP_CHECKMULTISIG] ->
+    (forall st, ev m st = multi_eval e ke k ks st) ->
+    e_sv e <> SvTapscript -> 1 <= k <= N.of_nat (length ks) -> (length ks <= 20)%nat ->
+    tsound m BB true.
+  Proof.
+    intros Henc Hev Htap Hk Hn st st' cs Hok H w r Hst [x [-> _]] rest al. rewrite Hev in H. unfold multi_eval in H.
+    destruct (N.ltb_spec (N.of_nat (length st)) (k + 1)) as [Hlt|Hge]; [discriminate|].
+    destruct st as [|a st0]; [cbn in Hge; lia|].
+    assert (Hcase : a = EDis \/ a <> EDis) by (destruct a; [right|left|right]; congruence || reflexivity).
+    destruct Hcase as [-> | Hna].
+    - destruct (forallb is_dis (firstn (N.to_nat (k + 1)) (EDis :: st0))) eqn:Ef; [|discriminate].
+      assert (Ex : x = EDis /\ r = skipn (N.to_nat (k + 1)) (EDis :: st0) /\ cs = []) by (inversion H; auto).
+      destruct Ex as [-> [Er ->]].
+      assert (Ew : w = firstn (N.to_nat (k + 1)) (EDis :: st0)).
+      { apply (app_same_tail _ _ r). rewrite <- Hst, Er, firstn_skipn. reflexivity. }
+      assert (Hw : C w = repeat [] (N.to_nat k) ++ [[]]).
+      { assert (Hl : length w = S (N.to_nat k)).
+        { rewrite Ew, firstn_length. cbn [length] in *. lia. }
+        assert (Hall : forall y, In y w -> y = EDis).
+        { intros y Hy. rewrite Ew in Hy. rewrite forallb_forall in Ef. specialize (Ef y Hy). destruct y; try discriminate. reflexivity. }
+        clear -Hl Hall. revert Hl. generalize (N.to_nat k) as j. induction w as [|y w' IH]; intros j Hl; [discriminate|].
+        cbn [length] in Hl. rewrite (Hall y (or_introl eq_refl)). cbn [C map conc].
+        destruct j as [|j'].
+        - destruct w'; [reflexivity | discriminate].
+        - cbn [repeat app]. f_equal. apply IH; [intros z Hz; apply Hall; right; exact Hz | lia]. }
+      rewrite Hw, <- app_assoc. cbn [app]. rewrite Henc.
+      assert (Htm : tr_script e ([push_int (Z.of_N k)] ++ map (fun key => IPush (kb ke key)) ks
+                                   ++ [push_int (Z.of_nat (length ks)); IOp OP_CHECKMULTISIG])
+                              (mkSt (repeat [] (N.to_nat k) ++ [] :: rest) al) = []).
+      { apply (tr_multi k ks (repeat [] (N.to_nat k)) rest al false Htap Hk Hn); [rewrite repeat_length; lia|].
+        destruct (N.to_nat k) eqn:Ek; [lia|]. cbn [repeat]. apply multisig_empty_first. }
+      match goal with |- trok ?t _ => replace t with (@nil event) by (symmetry; exact Htm) end. apply trok_nil.
+    - assert (Hloop : multi_loop e ke k (rev ks) 0 (a :: st0) = XOk (x :: r) cs).
+      { destruct (rev ks) as [|key l'] eqn:Er.
+        - destruct a; try congruence; discriminate.
+        - cbn [multi_loop]. destruct (N.eqb_spec 0 k) as [E|_]; [lia|].
+          destruct a; try congruence; exact H. }
+      destruct (s_multi_loop k (rev ks) 0 (a :: st0) _ cs Hloop ltac:(lia)) as [sigs [r' [Hst0 [Est [Hlen [_ [Hm Hpairs]]]]]]].
+      inversion Est; subst x r'.
+      assert (Ew : w = map EPush sigs ++ [EDis]).
+      { apply (app_same_tail _ _ r). rewrite <- app_assoc. cbn [app]. rewrite <- Hst0. symmetry. exact Hst. }
+      subst w. rewrite C_app, C_pushes, <- app_assoc. cbn [C map conc app]. rewrite Henc.
+      rewrite map_rev in Hm, Hpairs.
+      pose proof (tr_multi k ks sigs rest al true Htap Hk Hn ltac:(lia) Hm) as Htm.
+      match goal with |- trok ?t _ =>
+        replace t with (map (fun p => TSig (fst p) (snd p)) (multisig_pairs e (rev (map (kb ke) ks)) sigs))
+          by (symmetry; exact Htm) end.
+      apply trok_sigs. exact Hpairs.
+  Qed.
+
+
+  (* ---------------------------------------------------------------- typing dispatch for traces *)
+  Definition tsnd (m : ms) (t : ty) : Prop := tsound m (c_base (t_corr t)) (c_unit (t_corr t)).
+  Definition tstmt (m : ms) : Prop := forall t, type_of m = ROk t -> iwf m -> icover m -> tsnd m t.
+
+  Ltac one_child_t x IH Ht Hwf Hc tx Hs Htr :=
+    cbn [type_of] in Ht; apply rbind_ok in Ht; destruct Ht as [tx [?Hx Ht]];
+    cbn [iwf icover] in Hwf, Hc; pose proof (IH tx Hx Hwf Hc) as Htr; pose proof (ieval_sound x tx Hx Hwf Hc) as Hs;
+    destruct tx as [[?bx ?ix ?dx ?ux] ?mx]; unf Ht; unfold tsnd, isound in *; cbn [t_corr c_base c_unit c_input] in *.
+
+  Ltac two_children_t x y IHx IHy Ht Hwf Hc Hsx Htx Hsy Hty :=
+    cbn [type_of] in Ht; apply rbind_ok in Ht; destruct Ht as [?tx [?Hx Ht]];
+    apply rbind_ok in Ht; destruct Ht as [?ty [?Hy Ht]];
+    cbn [iwf icover] in Hwf, Hc; destruct Hwf as [?Hwx ?Hwy]; destruct Hc as [?Hcx ?Hcy];
+    pose proof (IHx _ Hx Hwx Hcx) as Htx; pose proof (IHy _ Hy Hwy Hcy) as Hty;
+    pose proof (ieval_sound x _ Hx Hwx Hcx) as Hsx; pose proof (ieval_sound y _ Hy Hwy Hcy) as Hsy;
+    destruct tx as [[?bx ?ix ?dx ?ux] ?mx]; destruct ty as [[?b2 ?i2 ?d2 ?u2] ?m2]; unf Ht;
+    unfold tsnd, isound in *; cbn [t_corr c_base c_unit c_input] in *.
+
+  Lemma j_thresh k xs : Forall tstmt xs -> tstmt (MThresh k xs).
+  Proof.
+    intros IH t Ht Hwf Hc. cbn [type_of] in Ht. fold (tys_of xs) in Ht.
+    apply rbind_ok in Ht. destruct Ht as [ts [Hts Ht]]. apply tys_of_ok in Hts.
+    cbn [iwf icover] in Hwf, Hc. destruct Hwf as [Hk [Hn Hwf]].
+    unfold t_threshold in Ht. destruct (c_threshold k (map t_corr ts)) as [c|] eqn:Ec; [|discriminate].
+    inversion Ht; subst; clear Ht.
+    unfold c_threshold in Ec. destruct (c_thresh_loop 0 0 (map t_corr ts)) as [n|] eqn:El; [|discriminate].
+    inversion Ec; subst; clear Ec. unfold tsnd. cbn [t_corr c_base c_unit c_input].
+    destruct xs as [|x0 rest]; [cbn in Hk; lia|].
+    inversion Hts as [|? t0 ? ts0 Hx0 Hrest]; subst. inversion IH as [|? ? IH0 IHr]; subst.
+    destruct Hwf as [Hw0 Hwr]. destruct Hc as [Hc0 Hcr].
+    cbn [map c_thresh_loop] in El. cbn [N.eqb andb negb] in El.
+    destruct (base_eqb (c_base (t_corr t0)) BB) eqn:Eb; cbn [negb] in El; [|discriminate].
+    destruct (c_unit (t_corr t0)) eqn:Eu; cbn [negb] in El; [|discriminate].
+    destruct (c_dissat (t_corr t0)); cbn [negb] in El; [|discriminate].
+    assert (Hb0 : c_base (t_corr t0) = BB) by (destruct (c_base (t_corr t0)); try discriminate; reflexivity).
+    destruct (thresh_loop_rest _ _ _ _ El ltac:(lia)) as [Hall _].
+    pose proof (ieval_sound x0 t0 Hx0 Hw0 Hc0) as Hs0. unfold isound in Hs0. rewrite Hb0, Eu in Hs0.
+    pose proof (IH0 t0 Hx0 Hw0 Hc0) as Ht0. unfold tsnd in Ht0. rewrite Hb0, Eu in Ht0.
+    assert (Hsr : Forall (fun x => sound x BW true IAny /\ tsound x BW true) rest).
+    { clear El Hk Hn Hts IH. revert ts0 Hrest Hall Hwr Hcr. induction IHr as [|x r Hx Hr IHr']; intros ts0 Hrest Hall Hwr Hcr.
+      - constructor.
+      - inversion Hrest as [|? t1 ? ts1 Hxt Hrt]; subst. cbn [map] in Hall. inversion Hall as [|? ? [Hb1 Hu1] Hall']; subst.
+        destruct Hwr as [Hw1 Hwr']. destruct Hcr as [Hc1 Hcr'].
+        pose proof (w_input_any x t1 Hxt Hb1) as Hi1.
+        constructor; [|exact (IHr' ts1 Hrt Hall' Hwr' Hcr')]. split.
+        + pose proof (ieval_sound x t1 Hxt Hw1 Hc1) as Hs. unfold isound in Hs. rewrite Hb1, Hu1, Hi1 in Hs. exact Hs.
+        + pose proof (Hx t1 Hxt Hw1 Hc1) as Ht. unfold tsnd in Ht. rewrite Hb1, Hu1 in Ht. exact Ht. }
+    apply (t_thresh k x0 rest (c_input (t_corr t0)) Hs0 Ht0 Hsr); cbn [length] in *; lia.
+  Qed.
+
+  Theorem ieval_traced : forall m, tstmt m.
+  Proof.
+    induction m using ms_ind'; try (intros t Ht Hwf Hc; cbn in Hc; contradiction).
+    - intros t Ht _ _. inversion Ht; subst. apply t_true.
+    - intros t Ht _ _. inversion Ht; subst. apply t_false.
+    - intros t Ht _ _. inversion Ht; subst. apply t_pk_k.
+    - intros t Ht _ _. inversion Ht; subst. apply (t_pkh_gen (MPkH k) (kh ke k)); reflexivity.
+    - intros t Ht _ _. inversion Ht; subst. apply (t_pkh_gen (MRawPkH h) h); reflexivity.
+    - intros ty0 Ht Hwf _. inversion Ht; subst. apply t_after, Hwf.
+    - intros ty0 Ht Hwf _. inversion Ht; subst. apply t_older, Hwf.
+    - intros t Ht _ _. inversion Ht; subst. apply (t_hash_gen _ KSha256 OP_SHA256 h); reflexivity.
+    - intros t Ht _ _. inversion Ht; subst. apply (t_hash_gen _ KHash256 OP_HASH256 h); reflexivity.
+    - intros t Ht _ _. inversion Ht; subst. apply (t_hash_gen _ KRipemd160 OP_RIPEMD160 h); reflexivity.
+    - intros t Ht _ _. inversion Ht; subst. apply (t_hash_gen _ KHash160 OP_HASH160 h); reflexivity.
+    - (* alt *) intros t Ht Hwf Hc. one_child_t m IHm Ht Hwf Hc tx Hs Htr.
+      destruct bx; try discriminate. inversion Ht; subst. cbn. eapply t_alt; eassumption.
+    - (* swap *) intros t Ht Hwf Hc. one_child_t m IHm Ht Hwf Hc tx Hs Htr.
+      destruct bx; try discriminate; destruct ix; try discriminate; inversion Ht; subst; cbn;
+        (eapply t_swap; [|eassumption|eassumption]); auto.
+    - (* check *) intros t Ht Hwf Hc. one_child_t m IHm Ht Hwf Hc tx Hs Htr.
+      destruct bx; try discriminate. inversion Ht; subst. cbn. eapply t_check; eassumption.
+    - (* dupif *) intros t Ht Hwf Hc. one_child_t m IHm Ht Hwf Hc tx Hs Htr.
+      destruct bx; try discriminate; destruct ix; try discriminate. inversion Ht; subst. cbn. eapply t_dupif; eassumption.
+    - (* verify *) intros t Ht Hwf Hc. one_child_t m IHm Ht Hwf Hc tx Hs Htr.
+      destruct bx; try discriminate. inversion Ht; subst. cbn. eapply t_verify; eassumption.
+    - (* nonzero *) intros t Ht Hwf Hc. one_child_t m IHm Ht Hwf Hc tx Hs Htr.
+      destruct ix; cbn in Ht; try discriminate; destruct bx; try discriminate; inversion Ht; subst; cbn;
+        (eapply t_nonzero; [|eassumption|eassumption]); auto.
+    - (* zne *) intros t Ht Hwf Hc. one_child_t m IHm Ht Hwf Hc tx Hs Htr.
+      destruct bx; try discriminate. inversion Ht; subst. cbn. eapply t_zne; eassumption.
+    - (* and_v *) intros t Ht Hwf Hc. two_children_t m1 m2 IHm1 IHm2 Ht Hwf Hc Hsx Htx Hsy Hty.
+      destruct bx, b2; try discriminate; inversion Ht; subst; cbn; (eapply t_and_v; [discriminate | eassumption ..]).
+    - (* and_b *) intros t Ht Hwf Hc. two_children_t m1 m2 IHm1 IHm2 Ht Hwf Hc Hsx Htx Hsy Hty.
+      destruct bx, b2; try discriminate; inversion Ht; subst; cbn. eapply t_and_b; eassumption.
+    - (* andor *) intros t Ht Hwf Hc.
+      cbn [type_of] in Ht. apply rbind_ok in Ht. destruct Ht as [ta [Ha Ht]].
+      apply rbind_ok in Ht. destruct Ht as [tb [Hb Ht]]. apply rbind_ok in Ht. destruct Ht as [tc [Hcc Ht]].
+      cbn [iwf icover] in Hwf, Hc. destruct Hwf as [Hwa [Hwb Hwc]]. destruct Hc as [Hca [Hcb Hc3]].
+      pose proof (IHm1 ta Ha Hwa Hca) as Hta. pose proof (IHm2 tb Hb Hwb Hcb) as Htb. pose proof (IHm3 tc Hcc Hwc Hc3) as Htc.
+      pose proof (ieval_sound m1 ta Ha Hwa Hca) as Hsa. pose proof (ieval_sound m2 tb Hb Hwb Hcb) as Hsb.
+      pose proof (ieval_sound m3 tc Hcc Hwc Hc3) as Hsc.
+      destruct ta as [[ba ia da ua] ma], tb as [[bb ib db ub] mb], tc as [[bc ic dc uc] mc]. unf Ht.
+      unfold tsnd, isound in *. cbn [t_corr c_base c_unit c_input] in *.
+      destruct da; cbn [negb] in Ht; try discriminate. destruct ua; cbn [negb] in Ht; try discriminate.
+      destruct ba, bb, bc; try discriminate; inversion Ht; subst; cbn;
+        (eapply t_andor; [discriminate | eassumption ..]).
+    - (* or_b *) intros t Ht Hwf Hc. two_children_t m1 m2 IHm1 IHm2 Ht Hwf Hc Hsx Htx Hsy Hty.
+      destruct dx; cbn [negb] in Ht; try discriminate. destruct d2; cbn [negb] in Ht; try discriminate.
+      destruct bx, b2; try discriminate; inversion Ht; subst; cbn. eapply t_or_b; eassumption.
+    - (* or_d *) intros t Ht Hwf Hc. two_children_t m1 m2 IHm1 IHm2 Ht Hwf Hc Hsx Htx Hsy Hty.
+      destruct dx; cbn [negb] in Ht; try discriminate. destruct ux; cbn [negb] in Ht; try discriminate.
+      destruct bx, b2; try discriminate; inversion Ht; subst; cbn. eapply t_or_d; eassumption.
+    - (* or_c *) intros t Ht Hwf Hc. two_children_t m1 m2 IHm1 IHm2 Ht Hwf Hc Hsx Htx Hsy Hty.
+      destruct dx; cbn [negb] in Ht; try discriminate. destruct ux; cbn [negb] in Ht; try discriminate.
+      destruct bx, b2; try discriminate; inversion Ht; subst; cbn.
+      exact (t_or_c m1 m2 u2 ix i2 Hsx Htx Hsy Hty).
+    - (* or_i *) intros t Ht Hwf Hc. two_children_t m1 m2 IHm1 IHm2 Ht Hwf Hc Hsx Htx Hsy Hty.
+      destruct bx, b2; try discriminate; inversion Ht; subst; cbn;
+        (eapply t_or_i; [discriminate | eassumption ..]).
+    - apply j_thresh; assumption.
+    - intros t Ht Hwf _. inversion Ht; subst. cbn [iwf] in Hwf. destruct Hwf as [Htap [Hk Hn]].
+      unfold tsnd. cbn [t_multi t_corr c_multi c_base c_unit].
+      apply (t_multi_gen (MMulti k ks) k ks); try reflexivity; assumption.
+    - intros t Ht Hwf _. inversion Ht; subst. cbn [iwf] in Hwf. destruct Hwf as [Htap [Hk Hn]].
+      unfold tsnd. cbn [t_multi_a t_corr c_multi_a c_base c_unit].
+      apply (t_multi_a_gen (MMultiA k ks) k ks); try reflexivity; try assumption.
+      + destruct ks; [cbn in Hk; lia | discriminate].
+      + lia.
+  Qed.
+
+  (* constraints_exact on the witness-script form *)
+  Theorem interp_rec_exact m t items cs :
+    type_of m = ROk t -> c_base (t_corr t) = BB -> iwf m -> icover m ->
+    Forall (fun b => blen b < 2147483648) items ->
+    interp_rec e ke kp m (astack_of_items items) = IAccept cs ->
+    accepts_tr e (enc ke m) (rev items) = Some (map check_of cs).
+  Proof.
+    intros Ht Hb Hwf Hc Hsz H. unfold interp_rec in H.
+    destruct (ev m (astack_of_items items)) as [st' cs'|er cs'|n] eqn:Ev; try discriminate.
+    assert (Hok : Forall okelem (astack_of_items items)).
+    { unfold astack_of_items. apply Forall_rev. apply Forall_forall. intros x Hx.
+      apply in_map_iff in Hx. destruct Hx as [b [<- Hin]]. rewrite Forall_forall in Hsz. specialize (Hsz b Hin).
+      unfold elem_of. destruct b as [|a [|a' b']]; cbn; auto.
+      - destruct (a =? 1); cbn; [exact I | split; [discriminate | exact Hsz]].
+      - split; [discriminate | exact Hsz]. }
+    pose proof (ieval_sound m t Ht Hwf Hc) as Hs. unfold isound in Hs. rewrite Hb in Hs.
+    destruct (Hs _ _ _ Hok Ev) as [w [r [Hst [_ Hp]]]]. pose proof Hp as [x0 [-> Hpr]].
+    unfold final_rule in H. destruct x0; try discriminate. destruct r; [|discriminate]. inversion H; subst cs'.
+    pose proof (ieval_traced m t Ht Hwf Hc) as Htr. unfold tsnd in Htr. rewrite Hb in Htr.
+    pose proof (Htr _ _ _ Hok Ev w [] Hst Hp [] []) as [_ [_ Hchecks]].
+    destruct (Hpr [] []) as [v [Hr Ho]]. destruct Ho as [[_ [Htru _]]|[Hd _]]; [|discriminate].
+    assert (Hconc : C (astack_of_items items) = rev items).
+    { unfold C, astack_of_items. rewrite map_rev, map_map. f_equal.
+      rewrite <- (map_id items) at 2. apply map_ext. intros b. unfold elem_of.
+      destruct b as [|a [|a' b']]; cbn; try reflexivity. destruct (N.eqb_spec a 1); subst; reflexivity. }
+    rewrite Hst, app_nil_r in Hconc. rewrite app_nil_r, Hconc in Hr, Hchecks.
+    unfold accepts_tr. rewrite exec_tr_eq, Hr. cbn [with_tr stk]. rewrite Htru, Hchecks. reflexivity.
   Qed.
 
 End InterpSound.
